@@ -1040,7 +1040,9 @@ func (c *bCase) oracleC02() (string, string) {
 			if account.ValidateVersion(account.Version(ver)) != nil {
 				return fmt.Sprintf("account output for unsupported account version %d accepted", ver), "C02/new-version"
 			}
-			if uint64(exp) > uint64(c.Best)+uint64(bMaxAccountExpiry) {
+			// (an unchanged timelock is the account's own, bounded when the
+			// account was created / renewed; only a new one is the batch's doing)
+			if exp != a.Expiry && uint64(exp) > uint64(c.Best)+uint64(bMaxAccountExpiry) {
 				return fmt.Sprintf("account output timelock %d is more than the maximum account lifetime after height %d", exp, c.Best), "C02/new-expiry"
 			}
 			s, err := a.nextScript(account.Version(ver).ScriptVersion(), exp)
